@@ -230,17 +230,22 @@ PROPS = {
                       "altitudes, that the domain error occurs exactly when the sun stays on one side "
                       "all day (and which side), and that date re-matching never discards an event one "
                       "of its candidates places on the date. The ephemeris margins are not theorems.",
-        "level_note": "Known findings on the unchanged tree: N3 (verdict side for elevated polar "
-                      "observers), D11 (UTC-day wrap hides one rising event per year).",
-        "lean_modules": ["Astral.Props.C01"],
+        "level_note": "Known finding on the unchanged tree: D11 (UTC-day wrap hides one rising event "
+                      "per year). N3 (verdict side for elevated polar observers) was repaired "
+                      "(/repo b2d07cf) and is re-checked by its witness on every run.",
+        "lean_modules": ["Astral.Props.C01", "Astral.Props.C20Total"],
         "theorems": [
             "Astral.C01.hourAngle_defined_iff", "Astral.C01.never_reaches_side",
             "Astral.C01.hourAngle_error_iff", "Astral.C01.rematch_complete",
+            "Astral.C20Total.alwaysVerdict_outcomes", "Astral.C20Total.sunrise_outcomes",
+            "Astral.C20Total.sunset_outcomes",
         ],
         "groups": [G("corr_sun", "hour_angle", 2500, 60000), G("corr_sun", "sun_events", 3500, 90000),
                    G("corr_sun", "transit", 1500, 40000)],
         "unproved": ["two-sided agreement with the ephemeris inside the 30-minute / 0.6° margins",
-                     "verdict message side when dip + 16' + refraction exceeds half the day's range (N3)"],
+                     "that the verdict's side (noon zenith against the horizon's zenith) coincides with the "
+                     "side of the domain error — both are decided by the same altitude range, at different "
+                     "declinations (noon vs. 00:00 UTC); checked by the search, not proved"],
         "assumes": ["one declination for the day"],
     },
     "C10": {
